@@ -73,6 +73,7 @@ func TestC17(t *testing.T) {
 	}
 	wg.Wait()
 	freshClientBursts(run)
+	globalLimitAlone(run)
 	windowRollover(run)
 	run.Require("window_rollover_trials", 40)
 	if rep.Mode() == "race" {
@@ -286,6 +287,51 @@ func freshClientBursts(run *rep.Run) {
 				run.Violation("C17/rate-bound-exceeded/first-contact", fmt.Sprintf("%d of %d simultaneous first requests of a new client (%s) were admitted within %.3f s; burst %d at %g/s allows %.2f", admitted, senders, ip, float64(lastRecv-firstSend)/1e9, burst, float64(perMin)/60.0, allowed),
 					map[string]any{"engine": eng, "client_ip": ip.String(), "admitted": admitted, "statuses": statuses})
 			}
+		}
+		w.Stop()
+		b.Close()
+	}
+}
+
+// globalLimitAlone: the per-IP limit switched off (0), the global limit on: what one client gets
+// admitted is still bounded by the global bucket (burst + rate x t).
+func globalLimitAlone(run *rep.Run) {
+	for wi, eng := range []string{"sherpa", "olla"} {
+		b := backend.NewStd("b", []string{"mall"}, llmresp.Handler("b"))
+		const burst, globalPerMin = 3, 60
+		w, err := world.Start(world.Spec{Engine: eng, Balancer: "priority", PerIPOff: true, GlobalPerMin: globalPerMin, Burst: burst,
+			Endpoints: []world.Endpoint{{Name: "b", URL: b.URL(), Type: "ollama", Priority: 100}}})
+		if err != nil {
+			run.Inconclusive("world failed to start: " + err.Error())
+			b.Close()
+			continue
+		}
+		hc := world.NewClient(true, 10*time.Second)
+		var first, last int64
+		for k := 0; k < 40; k++ {
+			req, _ := http.NewRequest("POST", fmt.Sprintf("%s/olla/proxy/v1/chat/completions?n=g%dk%d", w.Base, wi, k), bytes.NewReader([]byte(`{"model":"mall","messages":[]}`)))
+			req.Header.Set("Content-Type", "application/json")
+			res := client.Do(hc, req)
+			if first == 0 {
+				first = res.TCall
+			}
+		}
+		b.WaitIdle(2 * time.Second)
+		admitted := 0
+		for _, r := range b.ProxyRecords() {
+			if strings.Contains(r.RawQuery, fmt.Sprintf("n=g%dk", wi)) {
+				admitted++
+				if r.TRecv > last {
+					last = r.TRecv
+				}
+			}
+		}
+		run.Eval("global-limit-alone/" + eng)
+		run.Count("global_alone_cases", 1)
+		allowed := float64(burst) + float64(globalPerMin)/60.0*float64(last-first)/1e9
+		if admitted > 0 && float64(admitted) > allowed+1e-6 {
+			run.Violation("C17/rate-bound-exceeded/global-limit-with-per-ip-limit-off", fmt.Sprintf("per_ip_requests_per_minute 0, global_requests_per_minute %d, burst %d: %d of 40 requests of one client were admitted within %.3f s; the global bucket allows %.2f", globalPerMin, burst, admitted, float64(last-first)/1e9, allowed),
+				map[string]any{"engine": eng, "admitted": admitted})
 		}
 		w.Stop()
 		b.Close()
